@@ -815,6 +815,7 @@ func checkC16(p *Prog, r *Report) {
 	}
 	r.Floor("message-fields", nFields, 59)
 	checkDidDocumentValid(p, r, kp)
+	checkAddressConfig(p, r, kp)
 	// D3: PNFT handlers re-run ValidateBasic before the keeper call
 	for _, fn := range sortedFuncs(p.ServerHandlers("MsgServer")["x/pnft"]) {
 		msg := handlerMsgType(fn)
@@ -838,6 +839,77 @@ func checkC16(p *Prog, r *Report) {
 		}
 		r.Check(ok, kp("GUARD", FuncName(fn)+"#ValidateBasic-before-keeper"), "PNFT handlers re-run stateless validation before touching state", p.FnPos(fn), "dominated by request.ValidateBasic() == nil", "keeper call not dominated by a successful ValidateBasic")
 	}
+}
+
+// checkAddressConfig: what a "well-formed address" is, is decided by the process-wide SDK configuration. The limits of the
+// property are those of the SDK's own address check (bech32 with the account prefix, 1..255 bytes): a custom address verifier
+// REPLACES that check (sdk.VerifyAddressFormat consults the configured verifier instead of its built-in non-empty/length test),
+// and another prefix changes the accepted language.
+func checkAddressConfig(p *Prog, r *Report, kp func(string, string) string) {
+	const fixture = `package addrcfgfx
+
+import sdk "github.com/cosmos/cosmos-sdk/types"
+
+func Configure() {
+	c := sdk.GetConfig()
+	c.SetAddressVerifier(func(bz []byte) error { return nil })
+}
+`
+	find := func(fns []*ssa.Function) []CallSite {
+		var out []CallSite
+		for _, fn := range fns {
+			if fn == nil || fn.Blocks == nil {
+				continue
+			}
+			for _, cs := range callSites(fn) {
+				if cs.Name == "(*sdk/types.Config).SetAddressVerifier" {
+					out = append(out, cs)
+				}
+			}
+		}
+		return out
+	}
+	ckey := kp("WIRE", "address-verifier:control#fixture")
+	if fx, err := buildFixture(p, "addrcfgfx", fixture); err != nil {
+		r.Undecided(ckey, "positive control for the address-verifier rule", "checker/c16.go", "fixture does not build: "+err.Error())
+	} else {
+		n := len(find([]*ssa.Function{fx["Configure"]}))
+		r.Check(n == 1, ckey, "positive control: a call of Config.SetAddressVerifier is seen", "checker/c16.go (in-memory fixture, not executed)", "1 call found", fmt.Sprintf("%d calls found in the fixture, expected 1: the matcher is broken", n))
+	}
+	sites := find(p.ModFuncs)
+	if len(sites) == 0 {
+		r.OK(kp("WIRE", "address-verifier#none"), "addresses are checked by the SDK's built-in format check (non-empty, at most 255 bytes): no custom address verifier is installed", "app/, cmd/, x/",
+			fmt.Sprintf("%d module functions, no call of Config.SetAddressVerifier", len(p.ModFuncs)))
+	}
+	for _, cs := range sites {
+		in := cs.Instr.(ssa.Instruction)
+		r.Fail(kp("WIRE", "address-verifier@"+FuncName(in.Parent())), "addresses are checked by the SDK's built-in format check (non-empty, at most 255 bytes): no custom address verifier is installed", p.Pos(in.Pos()),
+			FuncName(in.Parent())+" installs a custom address verifier: the SDK then skips its own check (which is what rejects an empty address) and every AccAddressFromBech32 in ValidateBasic accepts exactly what the custom function accepts — the set of accepted addresses is no longer the documented one")
+	}
+	// the account prefix
+	nPrefix := 0
+	for _, fn := range p.ModFuncs {
+		if fn.Blocks == nil || !InPkgs(fn, "app") && !InPkgs(fn, "cmd") {
+			continue
+		}
+		var o *Origin
+		for _, cs := range callSites(fn) {
+			if cs.Name != "(*sdk/types.Config).SetBech32PrefixForAccount" {
+				continue
+			}
+			nPrefix++
+			if o == nil {
+				o = NewOrigin(p, fn)
+			}
+			args := cs.Instr.Common().Args
+			got := ""
+			if len(args) >= 2 {
+				got = o.Of(args[1]).String()
+			}
+			r.Check(got == `"panacea"`, kp("WIRE", "account-prefix@"+FuncName(fn)), "the account address prefix is panacea", p.Pos(cs.Instr.Pos()), got, "the account prefix is "+got+", not \"panacea\"")
+		}
+	}
+	r.Floor("account-prefix-configuration-sites", nPrefix, 1)
 }
 
 func clip(s string, n int) string {
@@ -898,12 +970,30 @@ func checkDidDocumentValid(p *Prog, r *Report, kp func(string, string) string) {
 	// loops over methods and services validate every element
 	for _, what := range []struct{ callee, name string }{{"VerificationMethod).Valid", "verification-methods"}, {"Service).Valid", "services"}} {
 		found := false
-		for _, cs := range callSites(valid) {
-			if strings.HasSuffix(cs.Name, what.callee) && inCycle(cs.Instr.Block()) {
-				found = true
-				c := cs.Instr
-				checkUnconditionalLoopEffect(p, r, kp("LOOP", "DIDDocument.Valid#every-"+what.name+"-validated"), valid,
-					func(in ssa.Instruction) bool { return in == c.(ssa.Instruction) }, "every element is validated (no conditional skip)")
+		// the loop sits in Valid itself or in a helper predicate of the document that the accepting return requires to hold
+		hosts := []*ssa.Function{valid}
+		F := fa.AtInstrX(finalTrue)
+		for _, a := range F.Atoms() {
+			if a.Term == nil || a.Term.Op != "call" || len(a.Term.Args) == 0 || a.Term.Args[0].Op != "param" || !Entails(F, a) {
+				continue
+			}
+			for _, g := range p.ModFuncs {
+				if FuncName(g) == a.Term.Name && g != valid && !p.IsGenerated(g) {
+					hosts = append(hosts, g)
+				}
+			}
+		}
+		for _, host := range hosts {
+			if found {
+				break
+			}
+			for _, cs := range callSites(host) {
+				if strings.HasSuffix(cs.Name, what.callee) && inCycle(cs.Instr.Block()) {
+					found = true
+					c := cs.Instr
+					checkUnconditionalLoopEffect(p, r, kp("LOOP", "DIDDocument.Valid#every-"+what.name+"-validated"), host,
+						func(in ssa.Instruction) bool { return in == c.(ssa.Instruction) }, "every element is validated (no conditional skip)")
+				}
 			}
 		}
 		if !found {
@@ -966,6 +1056,12 @@ func checkDidDocumentValid(p *Prog, r *Report, kp func(string, string) string) {
 					mx, _ := p.ConstVal(Rel(didTypesPkg), "MaxVerificationMethodIDLen")
 					okLen = t.Args[0].Name == "128" && mx == "128"
 				}
+				// the same bound on the length of the part behind the prefix: len(id[len(prefix):]) <= 128
+				if neg && t.Op == "lt" && t.Args[0].Op == "const" && t.Args[1].IsCall("builtin:len") && len(t.Args[1].Args) == 1 && t.Args[1].Args[0].Op == "slice" &&
+					len(t.Args[1].Args[0].Args) >= 2 && t.Args[1].Args[0].Args[0].Op == "param" && t.Args[1].Args[0].Args[1].IsCall("builtin:len") {
+					mx, _ := p.ConstVal(Rel(didTypesPkg), "MaxVerificationMethodIDLen")
+					okLen = t.Args[0].Name == "128" && mx == "128"
+				}
 				if pat, subj, ok := regexAtom(t); ok && !neg && subj.Op == "slice" {
 					eq, _, err := LangEqual(LangSpec{Pat: pat, Lo: 0, Hi: -1}, LangSpec{Pat: `^\S+$`, Lo: 0, Hi: -1})
 					okRe = err == nil && eq
@@ -993,7 +1089,7 @@ func checkDidDocumentValid(p *Prog, r *Report, kp func(string, string) string) {
 					}
 					// the id validator expanded in place (it became a pure function): its prefix test against <did parameter>#
 					if t.IsCall("strings.HasPrefix") && len(t.Args) == 2 && t.Args[0].Op == "field" && t.Args[0].Name == "Id" {
-						hasPrm, hasHash := false, false
+						hasPrm, hasHash, foreign := false, false, false
 						t.Args[1].Walk(func(x *Term) {
 							if x.Op == "param" {
 								hasPrm = true
@@ -1001,8 +1097,12 @@ func checkDidDocumentValid(p *Prog, r *Report, kp func(string, string) string) {
 							if x.Op == "const" && (x.Name == `"#"` || x.Name == `"%v#"` || x.Name == `"%s#"`) {
 								hasHash = true
 							}
+							// the DID must be the parameter itself, not something computed from it (or from the method)
+							if x.Op == "call" && !x.IsCall("fmt.Sprintf") || x.Op == "field" || x.Op == "phi" || x.Op == "unknown" {
+								foreign = true
+							}
 						})
-						if hasPrm && hasHash {
+						if hasPrm && hasHash && !foreign {
 							okID = true
 						}
 					}
